@@ -745,6 +745,7 @@ int state_scrub(struct snapraid_state* state, int plan, int olderthan)
 	block_off_t countlimit;
 	block_off_t i;
 	block_off_t count;
+	block_off_t used;
 	time_t recentlimit;
 	int ret;
 	struct snapraid_parity_handle parity_handle[LEV_MAX];
@@ -811,6 +812,7 @@ int state_scrub(struct snapraid_state* state, int plan, int olderthan)
 
 	/* copy the info in the temp vector */
 	count = 0;
+	used = 0;
 	log_tag("block_count:%u\n", blockmax);
 	for (i = 0; i < blockmax; ++i) {
 		snapraid_info info = info_get(&state->infoarr, i);
@@ -819,10 +821,18 @@ int state_scrub(struct snapraid_state* state, int plan, int olderthan)
 		if (info == 0)
 			continue;
 
+		++used;
+
+		/* bad blocks are always scrubbed in all plans, */
+		/* don't let them to consume the quota of the others, */
+		/* or if never fixed, no other block will be ever scrubbed */
+		if (info_get_bad(info))
+			continue;
+
 		timemap[count++] = info_get_time(info);
 	}
 
-	if (!count) {
+	if (!used) {
 		/* LCOV_EXCL_START */
 		log_fatal("The array appears to be empty.\n");
 		exit(EXIT_FAILURE);
